@@ -46,10 +46,28 @@ func c04Run(c *fw.Ctx, base types.EnvType, id string, ast types.MalType, text st
 			e.Set(types.Symbol{Val: "x"}, 1)
 			return e
 		}
+		// forms that start futures: their bodies run on other goroutines under contexts derived from the evaluation's;
+		// keep those contexts alive until the end of the case and give the bodies time to run inside its START/END window
+		var keep []context.CancelFunc
+		if strings.Contains(text, "future") {
+			defer func() {
+				time.Sleep(3 * time.Millisecond)
+				for _, k := range keep {
+					k()
+				}
+			}()
+		}
+		release := func(cancel context.CancelFunc) {
+			if strings.Contains(text, "future") {
+				keep = append(keep, cancel)
+			} else {
+				cancel()
+			}
+		}
 		// 1. direct
 		ctx, cancel := context.WithTimeout(context.Background(), 5*time.Second)
 		o := hx.Eval(ctx, ast, mk())
-		cancel()
+		release(cancel)
 		if o.Panicked {
 			c.Violate(fw.Violation{Key: "panic@" + o.Site + ":" + c04Head(class), What: "EVAL let a Go panic escape: " + o.PanicMsg, Detail: o.Stack})
 			return
@@ -72,7 +90,7 @@ func c04Run(c *fw.Ctx, base types.EnvType, id string, ast types.MalType, text st
 			types.List{Val: []types.MalType{types.Symbol{Val: "catch"}, types.Symbol{Val: "caught-error"}, canon.Marker + "caught"}}}}
 		ctx, cancel = context.WithTimeout(context.Background(), 5*time.Second)
 		o2 := hx.Eval(ctx, wrapped, mk())
-		cancel()
+		release(cancel)
 		if o2.Panicked {
 			c.Violate(fw.Violation{Key: "panic@" + o2.Site + ":try-wrapped:" + c04Head(class), What: "EVAL of (try AST (catch e :caught)) let a Go panic escape: " + o2.PanicMsg, Detail: o2.Stack})
 			return
@@ -109,7 +127,7 @@ func c04Run(c *fw.Ctx, base types.EnvType, id string, ast types.MalType, text st
 			fut := types.List{Val: []types.MalType{types.Symbol{Val: "deref"}, types.List{Val: []types.MalType{types.Symbol{Val: "future"}, ast}}}}
 			ctx, cancel = context.WithTimeout(context.Background(), 5*time.Second)
 			o4 := hx.Eval(ctx, fut, mk())
-			cancel()
+			release(cancel)
 			if o4.Panicked {
 				c.Violate(fw.Violation{Key: "panic@" + o4.Site + ":future:" + c04Head(class), What: "EVAL of @(future AST) let a Go panic escape: " + o4.PanicMsg, Detail: o4.Stack})
 				return
